@@ -71,3 +71,79 @@ Definition sendable (p : packet) : Prop := wf_packet p /\ size_packet p < two32.
 (* [fr] is a frame of [p] for some iteration order of the xattr map *)
 Definition frame_of (p : packet) (fr : bytes) : Prop :=
   exists xs, Permutation xs (pxattrs p) /\ fr = frame (encode_packet_ord xs p).
+
+(* ------------------------------------------------------------------ readers that report errors WITH data
+   The io.Reader contract allows Read to return n > 0 together with an error (io.EOF with the
+   final bytes: iotest.DataErrReader, decompressors, HTTP/TLS bodies; or any other error).
+   A reader is now a list of chunks each carrying the error reported by the Read call that
+   EXHAUSTS the chunk (a Read that takes only part of a chunk returns nil; an empty chunk is a
+   Read returning (0, err)); after the list, (0, io.EOF).
+
+   io.ReadFull = ReadAtLeast(buf, len buf):
+       for n < min && err == nil { nn, err = r.Read(buf[n:]); n += nn }
+       if n >= min { err = nil } else if n > 0 && err == EOF { err = ErrUnexpectedEOF }
+   i.e. a Read that COMPLETES the buffer counts even if it reports io.EOF (or anything else):
+   the error is dropped; an error before completion ends the call (io.EOF only when nothing
+   at all was read).  The error is not sticky in this model: the next Read goes on with the
+   next chunk (the harness reader does the same). *)
+Inductive rerr := RNone | REof | RErr.
+
+Inductive rfx_result :=
+| RFX_ok (b : bytes) (rest : list (bytes * rerr))
+| RFX_eof                     (* io.EOF: clean end *)
+| RFX_err.                    (* io.ErrUnexpectedEOF or the reader's own error *)
+
+Fixpoint read_fullx_from (got : bool) (n : N) (cs : list (bytes * rerr)) : rfx_result :=
+  if n =? 0 then RFX_ok [] cs else
+  match cs with
+  | [] => if got then RFX_err else RFX_eof
+  | (c, f) :: r =>
+    if len c <? n then                       (* chunk exhausted, buffer not yet complete *)
+      match f with
+      | RNone =>
+        match read_fullx_from (got || negb (len c =? 0)) (n - len c) r with
+        | RFX_ok b cs' => RFX_ok (c ++ b) cs'
+        | e => e
+        end
+      | REof => if got || negb (len c =? 0) then RFX_err else RFX_eof
+      | RErr => RFX_err
+      end
+    else if len c =? n then RFX_ok c r       (* this Read completes the buffer: its error is dropped *)
+    else RFX_ok (firstn (N.to_nat n) c) ((skipn (N.to_nat n) c, f) :: r)
+  end.
+Definition read_fullx := read_fullx_from false.
+
+Fixpoint recv_msgs_xf (fuel : nat) (cs : list (bytes * rerr)) : list (option packet) :=
+  match fuel with
+  | O => [None]
+  | S f =>
+    match read_fullx 4 cs with
+    | RFX_eof => []
+    | RFX_err => [None]
+    | RFX_ok h cs1 =>
+      let n := be32_dec h in
+      if n =? 0 then Some empty_packet :: recv_msgs_xf f cs1
+      else
+        match read_fullx n cs1 with
+        | RFX_eof => []
+        | RFX_err => [None]
+        | RFX_ok b cs2 =>
+          match decode_packet b with
+          | Some p => Some p :: recv_msgs_xf f cs2
+          | None => [None]
+          end
+        end
+    end
+  end.
+Definition xdata (cs : list (bytes * rerr)) : bytes := concat (map fst cs).
+Definition recv_msgs_x (cs : list (bytes * rerr)) : list (option packet) :=
+  recv_msgs_xf (S (length (xdata cs))) cs.
+
+Definition quiet (cs : list bytes) : list (bytes * rerr) := map (fun c => (c, RNone)) cs.
+
+(* readers that report an error only with (or instead of) their LAST chunk; an error other
+   than io.EOF only together with data *)
+Inductive tail_flagged : list (bytes * rerr) -> Prop :=
+| tf_nil : tail_flagged []
+| tf_last c f : (f = RErr -> c <> []) -> tail_flagged [(c, f)]
+| tf_cons c r : tail_flagged r -> tail_flagged ((c, RNone) :: r).
